@@ -57,3 +57,7 @@ impl EncoderValue for PathResponse<'_> {
         buffer.encode(&self.data.as_ref());
     }
 }
+
+#[cfg(all(aws_s2n_quic_verif, test))]
+#[path = "/verif/harness/core/frame_path_response.rs"]
+mod verif;
